@@ -12,7 +12,7 @@
 (* ("data": evaluated content differs, "flags": only merge flags differ,    *)
 (* "err": error class / success differs) and printed with the trace id.     *)
 (***************************************************************************)
-EXTENDS AyBuild, Props_C02, IOUtils, TLCExt
+EXTENDS AyBuild, Props_C02, Props_C03, IOUtils, TLCExt
 
 CONSTANT Prop   \* which property's declarative formula is evaluated on the logged outcomes
 
@@ -91,11 +91,14 @@ HistSafes == [i \in 1..Len(hist) |-> hist[i].safe]
 \* property's stated domain
 PropVerdict ==
     CASE Prop = "C02" -> IF C02_Holds(HistDocs, louts) THEN "holds" ELSE "violated"
+      [] Prop = "C03" -> IF ~C03_InDomain(HistDocs) THEN "outside"
+                         ELSE IF C03_Holds(HistDocs, louts) THEN "holds" ELSE "violated"
       [] OTHER -> "none"
 
 \* ... and on what the SPECIFICATION computed for the same history
 ModelVerdict ==
     CASE Prop = "C02" -> IF C02_Holds(HistDocs, accs) THEN "holds" ELSE "violated"
+      [] Prop = "C03" -> IF C03_Holds(HistDocs, accs) THEN "holds" ELSE "violated"
       [] OTHER -> "none"
 
 \* one line per trace, printed at the state where the whole trace is consumed.
